@@ -1132,6 +1132,10 @@ class MoneyConverter:
         """
         if unit_currency is term_currency:
             return ExchangeRate(unit_currency, ONE, term_currency, ONE)
+        if effective_date is None:
+            # get the default only once, so that both rates used for a
+            # triangulation are effective at the same date
+            effective_date = self._get_dflt_effective_date()
         base_currency = self.base_currency
         if base_currency == unit_currency:
             try:
